@@ -6,3 +6,6 @@ const fetchEnabled = false
 
 func fetchReset()     {}
 func fetchCount() int { return 0 }
+
+func fetchRecord(bool)   {}
+func fetchPcs() []string { return nil }
